@@ -210,3 +210,63 @@ c15_process!(c15_process_wild, |i| m_wild());
 // (composed queries such as `$[i][j]`, `$.a[*]`, `$.a.b` were tried here: the second stage's
 // flat_map sees a Data whose discriminant is a merge of Ref/Nothing and CBMC explores the Refs arm
 // (FlattenCompat over a heap vector) - no verdict in 600 s; see DESIGN 3.3 rule 6.)
+
+// slice selector through the whole pipeline (js_path_process), array of 3, all of I^3
+c08_process!(c08_process_slice_arr, 6, |sc| doc3(&mut sc), |i| m_slice(any_opt_ijson(), any_opt_ijson(), any_opt_ijson()), |i, n, got, sc| {
+    // (the slice parameters are drawn inside the segment constructor; here: every returned node is an element, in strictly monotone position order)
+    let mut last: i64 = -2;
+    let mut dir: i64 = 0;
+    let mut k = 0;
+    while k < n && k < 4 {
+        let mut pos: i64 = -1;
+        let mut j = 0;
+        while j < 3 {
+            if core::ptr::eq(got[k], &sc.elems[j]) {
+                pos = j as i64;
+            }
+            j += 1;
+        }
+        assert!(pos >= 0, "a slice must return elements of the array itself");
+        if k >= 1 {
+            let d = if pos > last { 1 } else { -1 };
+            assert!(pos != last && (dir == 0 || dir == d), "a slice returns each element at most once, in monotone index order");
+            dir = d;
+        }
+        last = pos;
+        k += 1;
+    }
+    assert!(n <= 3, "a slice cannot return more nodes than the array has elements");
+});
+
+// C12: history independence with a wildcard query in between
+proof!(c12_history_wild, 6, {
+    let (mut s1, mut s2) = (Scratch::new(), Scratch::new());
+    let d1 = doc3(&mut s1);
+    let d2 = doc3(&mut s2);
+    let i: i64 = any_ijson();
+    let mut g1 = m_index(i);
+    let mut g2 = m_wild();
+    let q1 = ManuallyDrop::new(JpQuery::new(seg_vec(&mut g1, 1)));
+    let q2 = ManuallyDrop::new(JpQuery::new(seg_vec(&mut g2, 1)));
+    let ra = js_path_process(&q1, &d1);
+    let rx = js_path_process(&q2, &d2);
+    let ry = js_path_process(&q2, &d1);
+    let rb = js_path_process(&q1, &d1);
+    match (&ra, &rb) {
+        (Ok(a), Ok(b)) => {
+            assert!(a.len() == b.len(), "repeating a query must give the same number of nodes");
+            if a.len() == 1 && b.len() == 1 {
+                assert!(core::ptr::eq(a[0].0, b[0].0), "repeating a query must give the same node");
+            }
+        }
+        _ => assert!(false, "evaluation must not fail"),
+    }
+    assert!(matches!(&rx, Ok(x) if x.len() == 3) && matches!(&ry, Ok(y) if y.len() == 3), "the wildcard query in between selects all three elements of either document");
+    kani::cover!(matches!(&ra, Ok(a) if a.len() == 1), "query selects a node");
+    forget(ra);
+    forget(rx);
+    forget(ry);
+    forget(rb);
+    forget(s1);
+    forget(s2);
+});
